@@ -5,14 +5,14 @@ CONSTANTS
   AtomicNextId = TRUE
   SendLock = TRUE
   DeleteOnGet = TRUE
-  HijackOnBroadcast = FALSE
+  HijackOnBroadcast = TRUE
   RefuseAfterClosed = TRUE
   SendErrDelivered = TRUE
   AllowRdFail = TRUE
   AllowWrFail = TRUE
-  AllowCancel = FALSE
+  AllowCancel = TRUE
   ChanCap1 = TRUE
   KeepSlotOnCancel = TRUE
-INVARIANTS Inv_C03_OwnReply Inv_C03_DistinctIds Inv_C03_Framing Inv_C04_NotifiedOnce
+INVARIANTS Inv_C03_OwnReply Inv_C03_DistinctIds Inv_C03_Framing Inv_C04_NotifiedOnce Inv_C03_NoSpuriousTeardown
 PROPERTIES Live_AllReturn
 CHECK_DEADLOCK TRUE
